@@ -55,7 +55,7 @@ def main(argv):
             print(dict(r.stats.c))
             return 1 if r.violation else 0
         if a.digests:
-            return core.run_check(prof, "quick", a.seed, runs=a.digests, workers=1, digests_only=True)
+            return core.run_check(prof, "quick", a.seed, runs=a.digests, workers=a.workers or 1, digests_only=True)
         tier = a.tier if a.tier in ("quick", "thorough") else "quick"
         return core.run_check(prof, tier, a.seed, runs=a.runs, workers=a.workers)
     except Exception:
